@@ -277,7 +277,7 @@ class BaseReader(object):
         Tuple[Tuple[int, ...], ...]
         """
 
-        return (self.data_size, ) if self.image_count == 1 else self.data_size
+        return (self.raw_data_size, ) if self.image_count == 1 else self.raw_data_size
 
     @property
     def files_to_delete_on_close(self) -> List[str]:
